@@ -1678,6 +1678,13 @@ func unmarshalList(info TypeInfo, data []byte, value interface{}) error {
 			return err
 		}
 		data = data[p:]
+		if n < 0 {
+			return unmarshalErrorf("negative list size %d", n)
+		}
+		if n > len(data)/p {
+			// every element starts with its own size field of p bytes
+			return unmarshalErrorf("unmarshal list: unexpected eof")
+		}
 		if k == reflect.Array {
 			if rv.Len() != n {
 				return unmarshalErrorf("unmarshal list: array with wrong size")
